@@ -6,8 +6,8 @@ from checks import callcommon, ctxcommon
 from framework import Case
 
 PROP = "C07"
-GENERATED = ['DtypeTables', 'Wrapper', 'SrcHints', 'SrcDecorate', 'Core', 'SrcExpand', 'HintLoop', 'Decorate', 'Resolve']  # generated files this check's tie depends on
-LEAN_MODULES = ["Properties.C07", "Properties.CoreWrap", "Properties.Prov.Hints", "Properties.Prov.Decorate", "Properties.Core", "Properties.Prov.Expand", "Properties.CoreHints", "Properties.CoreDecorate", "Properties.CoreResolve"]
+GENERATED = ['DtypeTables', 'Wrapper', 'SrcHints', 'SrcDecorate', 'Core', 'SrcExpand', 'HintLoop', 'Decorate', 'Resolve', 'SrcSurface']  # generated files this check's tie depends on
+LEAN_MODULES = ["Properties.C07", "Properties.CoreWrap", "Properties.Prov.Hints", "Properties.Prov.Decorate", "Properties.Core", "Properties.Prov.Expand", "Properties.CoreHints", "Properties.CoreDecorate", "Properties.CoreResolve", "Properties.Prov.Surface"]
 RULE = (
     "seeded dltyped functions (1-4 parameters, tuples, optionals, providers, return hint; positional, keyword, mixed, keyword-only and positional-only parameters, forward references, trailing parameters left at their default value) called with inputs that are conforming except "
     "for one violation placed in a single argument position / tuple element, or only in the return value; the body appends to a side-effect "
@@ -112,6 +112,9 @@ def custom(run, tier):
     from checks import c02
 
     c02.stacked(run)   # arguments are validated before the body also when another functools.wraps decorator sits underneath
+    from checks import c09
+
+    c09.reuse_and_late(run)   # ... and when the decorator object was applied to other functions before (each function queues ITS parameters)
     ann = dltype.FloatTensor["r c"]
     n = 0
     for lib, base in (("numpy", np.ndarray), ("torch", torch.Tensor)):
